@@ -195,8 +195,7 @@ pub fn parse_root_file<R: Read + Seek>(
             }
             "MOTX" => {
                 // Read texture filenames
-                let mut data = vec![0u8; chunk_info.size as usize];
-                reader.read_exact(&mut data)?;
+                let data = crate::chunk::read_vec(reader, chunk_info.size as usize)?;
                 let motx = Motx::parse(&data)?;
                 root.textures = motx.textures;
                 root.texture_offset_index_map = motx.texture_offset_index_map;
@@ -210,8 +209,7 @@ pub fn parse_root_file<R: Read + Seek>(
             }
             "MOGN" => {
                 // Read group names
-                let mut data = vec![0u8; chunk_info.size as usize];
-                reader.read_exact(&mut data)?;
+                let data = crate::chunk::read_vec(reader, chunk_info.size as usize)?;
                 let mogn = Mogn::parse(&data)?;
                 root.group_names = mogn.names;
             }
@@ -224,8 +222,7 @@ pub fn parse_root_file<R: Read + Seek>(
             }
             "MOSB" => {
                 // Read skybox name
-                let mut data = vec![0u8; chunk_info.size as usize];
-                reader.read_exact(&mut data)?;
+                let data = crate::chunk::read_vec(reader, chunk_info.size as usize)?;
                 let mosb = Mosb::parse(&data)?;
                 root.skybox = mosb.skybox;
             }
@@ -280,8 +277,7 @@ pub fn parse_root_file<R: Read + Seek>(
             }
             "MODN" => {
                 // Read doodad names
-                let mut data = vec![0u8; chunk_info.size as usize];
-                reader.read_exact(&mut data)?;
+                let data = crate::chunk::read_vec(reader, chunk_info.size as usize)?;
                 let modn = Modn::parse(&data)?;
                 root.doodad_names = modn.names;
             }
@@ -337,8 +333,7 @@ pub fn parse_root_file<R: Read + Seek>(
             "MOM3" => {
                 // Read new materials (WarWithin+)
                 // Structure is variable, read as opaque data for now
-                let mut data = vec![0u8; chunk_info.size as usize];
-                reader.read_exact(&mut data)?;
+                let data = crate::chunk::read_vec(reader, chunk_info.size as usize)?;
                 root.new_materials.push(Mom3Entry { data });
             }
             "MOMO" => {
